@@ -107,7 +107,8 @@ Qed.
 
 Theorem regcomp_prog_wf pat p : regcomp pat = Ok (Some p) -> prog_wf (code p).
 Proof.
-  unfold regcomp, parse_pat. destruct (rnode_parse (parse_fuel pat) pat) as [[[t|] s']| |] eqn:E; cbn [bind fst]; try discriminate.
+  unfold regcomp, parse_pat. destruct (rnode_parse (parse_fuel pat) pat) as [[[t|] s']| |] eqn:E; cbn [bind fst snd]; try discriminate.
+  destruct (parse_bad pat || negb match s' with [] => true | _ :: _ => false end); [discriminate|].
   destruct ((0 <=? NINST)%Z && (NINST <=? count t + 3)%Z) eqn:L; [discriminate|].
   intro H; inversion H; subst; clear H. cbn [code].
   pose proof (rnode_parse_wf _ _ _ _ E) as W.
@@ -171,7 +172,8 @@ Proof. intros H A. apply rec_no_abort; [eapply regcomp_prog_wf; eauto | exact A]
 
 Lemma regcomp_layout pat p : regcomp pat = Ok (Some p) -> code p = [IMark 0] ++ emit (tr (tree p)) 1 ++ [IMark 1; IMatch].
 Proof.
-  unfold regcomp, parse_pat. destruct (rnode_parse (parse_fuel pat) pat) as [[[t|] s']| |] eqn:E; cbn [bind fst]; try discriminate.
+  unfold regcomp, parse_pat. destruct (rnode_parse (parse_fuel pat) pat) as [[[t|] s']| |] eqn:E; cbn [bind fst snd]; try discriminate.
+  destruct (parse_bad pat || negb match s' with [] => true | _ :: _ => false end); [discriminate|].
   destruct ((0 <=? NINST)%Z && (NINST <=? count t + 3)%Z) eqn:L; [discriminate|].
   intro H; inversion H; subst; clear H. cbn [code tree].
   pose proof (rnode_parse_wf _ _ _ _ E) as W.
